@@ -9,13 +9,43 @@ COQ_CHECK = "lcheck"
 COQ_PREAMBLE = ("Inductive lcase := CMgm (c : M_Mgm.case) | CDsa (c : M_Dsa.dcase) | CMgm2 (c : M_Mgm2.case2).\n"
                 "Definition lcheck (c : lcase) : bool := match c with CMgm x => M_Mgm.check_case x "
                 "| CDsa x => M_Dsa.dcheck_case x | CMgm2 x => M_Mgm2.check_case2 x end.")
-OBLIGATIONS = []
+OBLIGATIONS = ["mgm_no_reentrancy_partial", "mgm_isolated_finishes", "dsa_isolated_finishes",
+               "mgm2_isolated_finishes", "mgm_finished_at_stop_partial", "dsa_finished_at_stop_partial",
+               "dsa_stopped_silent_partial"]
 N_QUICK, N_THOROUGH = 300, 4000
 PARALLEL = 8
 SHARD = 60
-RULE = ""
-MODELLED = ""
-META = dict(level_text="", level_note="", technique="", design_ref="DESIGN.md §5 C07")
+RULE = ("random DCOPs of 1-6 variables (domains of 1-3 integer values, also non-contiguous / unsorted), binary "
+        "constraints of random density, ternary constraints (25%), duplicate scopes, unary constraints, isolated "
+        "variables, variables with own cost tables (dict or function), min/max, stop_cycle 1-5; algorithm mgm, "
+        "mgm2 (threshold 0-1, the three favor modes) or dsa (variants A/B/C, probability 0-1); real computations "
+        "run by the thread-free netdriver under a seeded schedule from 6 policies (uniform, drain, newest, "
+        "startlate, starve:<node>), 75% to quiescence, 25% cut after 1-60 actions; every random.choice / "
+        "random.random / random.uniform / numpy.random.choice of the algorithms replaced by a logged oracle. "
+        "non-trivial = some computation reaches cycle 2; distinct = distinct case JSON")
+MODELLED = ("modelled: all message handlers of MgmComputation, DsaComputation and Mgm2Computation with their "
+            "postponed lists / dictionaries, stop_cycle tests, value_selection, new_cycle, finished, stop, plus "
+            "MessagePassingComputation start/on_message buffering (Net.v). compared per case: the complete ordered "
+            "event trace (value selections with cost and cycle, new cycles, finished, raises), every node's final "
+            "internal state, every channel's content, the neighbour sets. theorems: MGM no re-entrant postponed "
+            "processing under EVERY schedule, isolated variables finish at start (3 algorithms), finished only at "
+            "stop_cycle and silent afterwards (local). NOT a theorem: the global barrier invariant (finished "
+            "exactly once with cycle k, quiescent => all finished) - checked by the oracle on every run")
+META = dict(
+    level_text=("Partial proof (Coq). Proved for all DCOPs, oracles and ALL schedules of starts and FIFO deliveries: "
+                "the MGM handlers never process a postponed list re-entrantly and keep the postponed lists "
+                "consistent with the waiting state; proved locally for MGM, DSA, MGM2: a variable without neighbour "
+                "selects a value, reports finished once at start and sends nothing; finished() is only reported "
+                "when the cycle counter has reached stop_cycle > 0 and then nothing is sent; a finished DSA "
+                "computation stays silent. NOT proved: the global barrier invariant that gives 'finished exactly "
+                "once with cycle counter k' and 'no computation left waiting' for every schedule; that part is "
+                "checked on every run by replaying seeded FIFO schedules on the real computations against the "
+                "executable models (whole event trace, final states, channels) and by an independent oracle."),
+    level_note=("Trusted: Coq kernel/vm_compute, M_Mgm.v / M_Dsa.v / M_Mgm2.v + Net.v as renderings of the Python "
+                "code, the thread-free netdriver. Costs inside int32 (find_arg_optimal sentinels are C06's)."),
+    technique="Coq invariant proof over executable network models + schedule-replay correspondence + trace oracle",
+    design_ref="DESIGN.md §5 C07",
+)
 
 ALGOS = ["mgm", "dsa", "mgm2"]
 
